@@ -250,4 +250,13 @@ theorem C18_writer_formats :
           (fmtP3s Sympler.Gen.Restart.writerPrecision p.v ++ (tagTokens f.attrs p.tags ++ ['\n']))))) :=
   ⟨rfl, by decide, by decide, fun _ _ _ => rfl⟩
 
+/-- **the column layout** (regenerated from phase.cpp and pc_file.cpp): the header, the free-particle lines and the frozen-particle lines
+all run over ALL rows of the species' format and keep exactly the persistent attributes, in the same order; the fixed columns are
+written as `r.x r.y r.z v.x v.y v.z` in both kinds of lines and read back in that order.  (The model's `particleLine` / `tagTokens` /
+reader assume precisely this.) -/
+theorem C18_column_layout :
+    Sympler.Gen.Restart.writerSections =
+      [("header", true, true, "names"), ("free", true, true, "r.x r.y r.z v.x v.y v.z"), ("frozen", true, true, "r.x r.y r.z v.x v.y v.z")] ∧
+    Sympler.Gen.Restart.readerColumns = "r.x r.y r.z v.x v.y v.z" := by decide
+
 end Sympler.Restart
